@@ -237,6 +237,11 @@ def setView : View (BMap Unit) where
   freed _ := none
   ordered := false
 
+/-- the constraint on the iteration-order oracle (`Oracle.Valid` / `BMap.OrderValid`): the order read
+    off an observed key listing must visit every slot of the Go map exactly once.  Without this check a
+    `Keys()` that skips whole buckets would be "explained" by an order that omits them. -/
+def isPermInts (a b : List Int) : Bool := sortInts a == sortInts b
+
 /-- compare the state dump that follows every call -/
 def checkDump {σ : Type} (v : View σ) (st : σ) (obs : String) : Option String :=
   if field obs "cycle" == some "1" then some "a chain or the entry list is cyclic" else
@@ -244,6 +249,8 @@ def checkDump {σ : Type} (v : View σ) (st : σ) (obs : String) : Option String
   let order := (obsKeys.map v.code).eraseDups
   let wantKeys := v.keysIn st order
   if fieldInt obs "len" ≠ some (v.len st) then some s!"Len want {v.len st}"
+  else if !isPermInts order (v.codes st) then
+    some s!"Keys does not visit every bucket exactly once: visited {renderInts order}, buckets {renderInts (v.codes st)}"
   else if fieldInts obs "keys" ≠ some wantKeys then some s!"Keys want {renderInts wantKeys} (bucket order {renderInts order})"
   else
     let valsBad : Option String := match v.vals st with
@@ -266,6 +273,9 @@ def stepModel {σ : Type} (v : View σ) (st : σ) (ws : List String) (obs : Stri
     if ws == ["keys"] then ((resKeys.map fun ks => (ks.map v.code).eraseDups).getD (v.codes st)) else v.codes st
   let cands := if ws.head? == some "put" then v.poolCands st else [none]
   let tries := cands.filterMap fun c => v.step st ⟨c, opOrder⟩ ws
+  if !isPermInts opOrder (v.codes st) then
+    (st, some s!"Keys does not visit every bucket exactly once: visited {renderInts opOrder}, buckets {renderInts (v.codes st)}")
+  else
   match tries with
   | [] => (st, some s!"bad-op {ws}")
   | first :: _ =>
